@@ -1,6 +1,6 @@
-/-! Model of `optimalPartition`, `backtracking`, `backward`, `optimalSegmentation`, `findStopsGlobal`'s reward matrix
-(algo/segmentation.py) and of `optimalSimplification` / `simplify`'s modes 4–8 (algo/simplification.py, as of b8f1113:
-parameter and direction forwarded).
+/-! Model of `optimalPartition`, `backtracking`, `backward`, `optimalSegmentation`, `findStopsGlobal`'s reward matrix, the dispatcher
+`findStops` (algo/segmentation.py), of `optimalSimplification` / `simplify`'s modes 4–8 (algo/simplification.py, as of b8f1113:
+parameter and direction forwarded) and of `TrackCollection.simplify` for the free modes (core/track_collection.py).
 
 `optimalPartition` has two forms:
 * the *table* form (`optimalPartition`, run by the driver on arrays: `Model/PartitionArr.lean`) mirrors the Python line by
